@@ -70,8 +70,10 @@ mod kani_c16_cache {
         c.limit_rate(t);
         let t2 = any_instant();
         if c.lookup(&k, t2) == Answer::NotFound { assert!(t2 >= t + Duration::from_millis(1_000), "C16.cache.rate: at most one discovery per second"); }
+        let silent = c.silent_until;
         c.flush();
-        assert!(entry(&c, &k).is_none(), "C16.cache.flush: forgets everything");
+        assert!(entry(&c, &k).is_none(), "C16.cache.flush: forgets every learned address");
+        assert!(c.silent_until == silent, "C16.cache.flush: flushing does not lift the discovery rate limit");
     }
 }
 
@@ -83,7 +85,7 @@ mod kani_c16_routes {
     fn any_instant() -> Instant { let us: i64 = kani::any(); kani::assume(us >= 0 && us < (1i64 << 40)); Instant::from_micros(us) } // tag: range
     fn any_v4() -> Ipv4Address { Ipv4Address::from_bits(kani::any()) }
 
-    #[kani::proof] #[kani::unwind(36)]
+    #[kani::proof] #[kani::unwind(8)]
     fn c16_routes_lookup_longest_unexpired_prefix() {
         let mut r = Routes::new();
         let mut i = 0;
@@ -91,7 +93,7 @@ mod kani_c16_routes {
             if kani::any() {
                 let plen: u8 = kani::any();
                 kani::assume(plen <= 32); // tag: pre
-                let _ = r.storage.push(Route { cidr: IpCidr::Ipv4(Ipv4Cidr::new(any_v4(), plen)), via_router: IpAddress::Ipv4(any_v4()), preferred_until: None, expires_at: if kani::any() { Some(any_instant()) } else { None } });
+                let _ = r.storage.push(Route { cidr: IpCidr::Ipv4(Ipv4Cidr::new(any_v4(), plen)), via_router: IpAddress::Ipv4(any_v4()), preferred_until: if kani::any() { Some(any_instant()) } else { None }, expires_at: if kani::any() { Some(any_instant()) } else { None } });
             }
             i += 1;
         }
